@@ -164,3 +164,37 @@ func VH_C03_leader_step(n int, rule int) {
 		vassert(last1 == last0, "no-vote-leaves-history-unchanged")
 	}
 }
+
+// C03(d): two proposals in a row from the leader (an equivocating leader may send two blocks for
+// one view); the first vote may fail to leave the replica (aggregator error). Whatever happens,
+// the blocks the replica signed have strictly increasing views.
+func VH_C03_two_proposals(n int, rule int) {
+	leader := hotstuff.ID(2)
+	r := VNewReplica(n, rule, leader, vsymbolic())
+	gen := hotstuff.GetGenesis()
+	gqc := hotstuff.NewQuorumCert(nil, 0, gen.Hash())
+	cur := hotstuff.View(nondetU64("current-view"))
+	vassume(cur >= 1 && cur < 1<<40)
+	r.States.VSetView(cur)
+	last0 := hotstuff.View(nondetU64("last-voted"))
+	vassume(last0 < 1<<40)
+	r.Voter.VSetLastVoted(last0)
+	r.Comm.FailAggregate = nondetBool("first-vote-cannot-be-sent")
+	for i := 0; i < 2; i++ {
+		vb := hotstuff.View(nondetU64("block-view"))
+		vassume(vb >= 1 && vb < 1<<40)
+		blk := hotstuff.VMakeBlock(hotstuff.VHash(10+i), gen.Hash(), gqc, &clientpb.Batch{}, vb, leader)
+		r.El.AddEvent(hotstuff.ProposeMsg{ID: leader, Block: blk})
+		r.Drain()
+		r.Comm.FailAggregate = false
+	}
+	vobserve("signed", uint64(len(r.Comm.VotedBlocks)))
+	if len(r.Comm.VotedBlocks) == 2 {
+		vcover("two-votes")
+		vassert(r.Comm.VotedBlocks[1].View() > r.Comm.VotedBlocks[0].View(), "at-most-one-signed-block-per-view-in-increasing-order")
+	}
+	for _, b := range r.Comm.VotedBlocks {
+		vassert(b.View() > last0, "signed-only-above-the-initial-vote-history")
+	}
+	vassert(r.Voter.VLastVoted() >= last0, "vote-history-never-decreases")
+}
